@@ -250,7 +250,8 @@ def iter1(ctx, pid):
             if ev.k == "call" and ev.a == "ok":
                 tg = ctx.R.resolve_call(ev.node, f, count=False)[0]
                 if tg.kind == "def" and tg.func.name == "traverse_from":
-                    args = [eng.ev(a, f, st) for a in ev.node.args]
+                    ct = st.cterms.get(id(ev.node))  # as evaluated at the call: `node` may be rebound afterwards
+                    args = list(ct[2][1:]) if ct is not None and ct[0] == "call" else [eng.ev(a, f, st) for a in ev.node.args]
                     first = ("sub", ("attr", node, "sub_segments"), C(0))
                     good = len(args) == 2 and args[0] == node and args[1] == first and (val, False) in log
                     desc_ok = good if desc_ok is None else (desc_ok and good)
